@@ -210,11 +210,11 @@ CHECKS = {
 # additions after the first complete build (appended to the level text)
 ALSO = {
     "C03": " Also: the same gate object re-read after a battery of read-only queries.",
-    "C05": " Also: operations on no qubits (global phases, plain and classically controlled).",
+    "C05": " Also: operations on no qubits (global phases, plain and classically controlled), symbolic operations with the parameter caches checked against the operations held, reflected add right after queries.",
     "C20": " Also: EngineJob's result waiting layered over every settled stream future (errors surface, results pass through, only StreamError polls).",
     "C01": " Also: user gates that implement only _unitary_, echo steps, every documented control-value form on the classical simulator.",
     "C02": " Also: the Clifford simulators (CH form, tableau sampler) with repeated keys and feed-forward; Pauli-product measurements; "
-           "nested repeated sub-circuits that re-use key names, on all simulators; the same run after its keys were renamed / prefixed; cirq.sample (the self-dispatching entry point).",
+           "nested repeated sub-circuits that re-use key names, on all simulators; the same run after its keys were renamed / prefixed; cirq.sample (the self-dispatching entry point); several conditions on one operation and the cirq.If spelling; repetitions of the Clifford simulators as independent runs.",
     "C04": " Also: Moments as values (operations on interleaved qubit ranges in shuffled order), arbitrary channels, repeated and inverted CircuitOperation wrappers, qudit controls up to dimension 6.",
     "C06": " Also: a 'merge anything connected' option set for the merge primitives, a verdict for outputs that lost every measurement, cirq.ControlledOperation (phase-only sub-operations) and user-defined channels in the input programs.",
     "C07": " Also: named two-qubit gates at integer powers and pairs of named gates alone on one pair; device circuits holding the same gate "
@@ -222,7 +222,7 @@ ALSO = {
     "C08": " Also: the same gate on exchanged qubits (parameters snapped onto symmetry lattices), CliffordGate integer powers, "
            "trace-distance bounds through control wrappers; commutes at every tolerance asked for (nearly commuting pairs); controlled operations through their action on a state; operands unchanged by the predicates.",
     "C09": " Also: arbitrary (complex, non-diagonal) channels, ThermalNoiseModel against its documented Lindblad operators, "
-           "InsertionNoiseModel identifier matching, device-derived models (NoiseModelFromNoiseProperties), qis measures, coherent noise gates, cirq.final_density_matrix(noise=).",
+           "InsertionNoiseModel identifier matching, device-derived models (NoiseModelFromNoiseProperties), qis measures, coherent noise gates, cirq.final_density_matrix(noise=), joint Pauli measurements, cirq.apply_mixture on caller-owned tensors.",
     "C10": " Also: composed resolvers with overlapping keys, symbolic repetition counts resolving to negative integers, circuits derived (copy / + / radd / insert / slice ...) from a circuit whose parameter answers are already cached.",
     "C11": " Also: mapping arguments in random insertion order, arbitrary channels.",
     "C12": " Also: classically controlled sub-circuits, key maps that re-point control keys, tags at every depth, symbolic / replaced "
